@@ -146,9 +146,17 @@ def N(name: Any, t: str = "file", content: bytes = b"x", children: Optional[List
 
 
 class Built:
-    def __init__(self, base: pathlib.Path) -> None:
+    def __init__(self, base: pathlib.Path, variant: int = 0) -> None:
         self.base = base
-        self.root = base / "snippets"
+        # The location of the snippets root must not matter: every fourth tree lives below a dotted (hidden-looking)
+        # directory, every fourth is addressed through a non-normalised path with a '..' component.
+        if variant % 4 == 2:
+            self.root = base / ".dotted.d" / "snippets"
+        elif variant % 4 == 3:
+            (base / "sub").mkdir(parents=True, exist_ok=True)
+            self.root = base / "sub" / ".." / "snippets"
+        else:
+            self.root = base / "snippets"
         self.targets = base / "targets"
         self.socks: List[socket.socket] = []
         self.k = 0
@@ -209,7 +217,7 @@ _counter = [0]
 def build(ctx: Ctx, spec: Sequence[Dict[str, Any]]) -> Built:
     _counter[0] += 1
     base = ctx.scratch() / f"t{_counter[0]}"
-    b = Built(base)
+    b = Built(base, _counter[0])
     b.root.mkdir(parents=True)
     b.targets.mkdir()
     _build_into(b, os.fsencode(b.root), spec)
